@@ -242,3 +242,51 @@ def exc_name(o):
 def _kind_name(comp):
   t, k, o = comp
   return exc_name(o) if k == 'exc' else 'value'
+
+
+TRANSPORT_MODULES = ('scales.mux.sink', 'scales.thriftmux.sink', 'scales.thrift.sink', 'scales.kafka.sink')
+
+
+class TransportDeliveries(object):
+  """Counts, per request (= per sink stack), how many times a *transport*
+  handed it a response (reply stream or error message).  The library's sink
+  stack silently drops a second delivery once it has been drained, so a
+  transport that fails a request and then also delivers its reply is invisible
+  from the caller's side; C08 is stated at this interface."""
+
+  def __init__(self):
+    import sys
+    import scales.sink as sk
+    self.count = {}       # id(stack) -> [stack, n, [kinds]]
+    me = self
+    cls = sk.ClientMessageSinkStack
+    orig_stream, orig_msg = cls.AsyncProcessResponseStream, cls.AsyncProcessResponseMessage
+
+    def from_transport():
+      # called by a method (or a closure of a method) of a transport sink; the
+      # serializer sinks live in the same modules and forward responses up the
+      # same stack, which is not a second response
+      f = sys._getframe(2)
+      if f.f_globals.get('__name__') not in TRANSPORT_MODULES:
+        return False
+      obj = f.f_locals.get('self')
+      return any(c.__name__ in ('MuxSocketTransportSink', 'SocketTransportSink') for c in type(obj).__mro__)
+
+    def stream(stack, s):
+      if from_transport():
+        me.count.setdefault(id(stack), [stack, 0, []])
+        me.count[id(stack)][1] += 1
+        me.count[id(stack)][2].append('reply')
+      return orig_stream(stack, s)
+
+    def message(stack, msg):
+      if from_transport():
+        me.count.setdefault(id(stack), [stack, 0, []])
+        me.count[id(stack)][1] += 1
+        me.count[id(stack)][2].append('error:%s' % type(getattr(msg, 'error', None)).__name__)
+      return orig_msg(stack, msg)
+    cls.AsyncProcessResponseStream = stream
+    cls.AsyncProcessResponseMessage = message
+
+  def doubles(self):
+    return [(n, kinds) for _, n, kinds in self.count.values() if n > 1]
